@@ -579,9 +579,10 @@ func runBehaviour(b *behaviour, rep *vfutil.Report) (fd *finding, at int) {
 			continue
 		}
 		fd := r.exec(i)
-		if fd == nil {
-			// steps nothing holds back (a worker joining an opening process, a loop re-entering WaitOne) have no
-			// observable end: the next step is only taken once every goroutine of the pool has come to rest
+		if fd == nil && dialStep[b.Steps[i].Act.A] {
+			// steps of the dial pool that nothing holds back (a worker joining an opening process, moving on to
+			// its next peer, picking the next task) have no observable end: the next step is only taken once
+			// every goroutine of the pool has come to rest
 			fd = c.quiesce()
 		}
 		if fd == nil {
@@ -611,6 +612,9 @@ func runBehaviour(b *behaviour, rep *vfutil.Report) (fd *finding, at int) {
 	}
 	return nil, -1
 }
+
+var dialStep = map[string]bool{"Send": true, "WorkerTake": true, "WorkerGetStreams": true, "WorkerWrite": true,
+	"OpenOk": true, "OpenFail": true, "OpenEnd": true}
 
 func shape(b *behaviour) string {
 	var sb strings.Builder
